@@ -287,6 +287,83 @@ def run(ctx):
             if not ok:
                 res.find(key, w.loc(t["sp"]), "%s prints its f64 literal through <f64 as Display>, which writes 1.0 as `1` (re-lexed as an integer literal: a different instruction) and 1e300 as 301 digits (rejected)" % sp.replace("quil_rs::", ""), "`MOVE ro 1.0` prints `MOVE ro[0] 1`, which re-parses to a LiteralInteger operand")
     res.count("real_literal_format_sites", nreal, floor=2)
+    # K8 separator agreement (forward direction): a writer that emits a comma between elements needs a parser for the same
+    #    type that accepts the COMMA token; whitespace-separated lists (`many0(..)`) must not be printed with commas
+    from qv.synq import walk as _walk
+
+    def _strs(body):
+        out = []
+
+        def v(n):
+            if n.get("k") == "lit" and n.get("t") == "str":
+                out.append(n["v"])
+            if n.get("k") == "macro" and "template_raw" in n:
+                out.append(n["template_raw"])
+        _walk(body, v)
+        return out
+
+    def _mentions(body, name):
+        """does the body construct a value of type `name` (struct literal, T::new / T::try_new, Instruction::T(..))?"""
+        hit = []
+
+        def v(n):
+            for key in ("p", "path"):
+                val = n.get(key)
+                if isinstance(val, str):
+                    segs = val.split("::")
+                    if segs[-1] == name and (len(segs) == 1 or segs[-2] in ("Instruction", "instruction", "crate", "super")):
+                        hit.append(1)
+                    if len(segs) >= 2 and segs[-2] == name:  # T::new(..), T::Variant(..)
+                        hit.append(1)
+            if n.get("k") == "macro" and re.search(r"(?<![:\w])%s\s*(\{|::new)" % re.escape(name), n.get("raw", "")):
+                hit.append(1)
+        _walk(body, v)
+        return bool(hit)
+
+    def _has_comma_token(fn, depth=2, seen=None):
+        seen = seen or set()
+        if fn["name"] in seen:
+            return False
+        seen.add(fn["name"])
+        raws, callees = [], []
+
+        def v(n):
+            if n.get("k") == "macro":
+                raws.append(n.get("raw", ""))
+            if n.get("k") == "path":
+                callees.append(n["p"].rsplit("::", 1)[-1])
+        _walk(fn["body"], v)
+        if any(re.search(r"\bComma\b", r) for r in raws) or "Comma" in callees:
+            return True
+        if depth > 0:
+            for c_ in set(callees):
+                for g in syn.by_name.get(c_, []):
+                    if "parser/" in g["file"] and _has_comma_token(g, depth - 1, seen):
+                        return True
+        return False
+
+    parser_fns = [f for f in syn.fns if "parser/" in f["file"]]
+    ncomma = 0
+    for wf in syn.fns:
+        if wf["name"] != "write" or not str(wf.get("impl_trait", "")).endswith("Quil"):
+            continue
+        commas = [l for l in _strs(wf["body"]) if "," in l]
+        if not commas:
+            continue
+        ncomma += 1
+        ty = wf["impl_self"].split("<")[0]
+        key = "K8|comma-separator|%s" % ty
+        makers = [f for f in parser_fns if _mentions(f["body"], ty)]
+        if not makers:
+            res.site(key, False, {"verdict": "undecided: no parser function mentions " + ty})
+            res.undecided.append(key)
+            continue
+        ok = any(_has_comma_token(f) for f in makers)
+        res.site(key, True, {"writer_literals": commas[:3], "parsers": [f["name"] for f in makers][:4], "verdict": "ok" if ok else "VIOLATION"})
+        if not ok:
+            res.find(key, "%s:%d" % (wf["file"], wf["ln"]), "the writer of %s separates elements with a comma (%s) but none of its parsers (%s) accepts a COMMA token: the list is whitespace-separated in the grammar" % (ty, commas[:2], [f["name"] for f in makers][:4]),
+                     "a %s with two list elements prints text that does not parse" % ty)
+    res.count("writers_emitting_commas", ncomma, floor=5)
     res.explanation = (
         "%d Quil::write implementations analysed. K3: %d fields must each be read by their writer (transitively through local callees). "
         "K8: %d keyword words taken from the writers' un-expanded write! templates must be lexer spellings (strum attributes of Command/KeywordToken/Modifier/DataType), "
